@@ -410,6 +410,8 @@ class Run(object):
 
 
 def pool_for(cfg):
+    if cfg.get('keys') == 'big':
+        return ['b0', 'b1', 'b%d' % (cfg['max_size'] // 2), 'b%d' % (cfg['max_size'] - 1), 'new0', 'zz-none']
     pool = ['k%d' % i for i in range(cfg['max_size'] + 3 if cfg['max_size'] < 100 else 8)]
     if cfg.get('keys') == 'mixed':
         # equal-but-distinct keys (1 == 1.0 == True) and None next to the strings
@@ -552,8 +554,27 @@ class Check(object):
         return ':'.join(parts)
 
 
+class BigCheck(Check):
+    """Caches of hundreds to thousands of entries: filled, a scattering of old keys refreshed (assigned again, and
+    looked up), copied, and the eviction order of the copy and of the original probed."""
+
+    def gen(self, r, ctx):
+        ms = r.choice([513, 600, 1024, 1500, 2048])
+        cfg = {'cls': r.choice(['LRI', 'LRU']), 'max_size': ms, 'on_miss': False, 'values_shape': 'none', 'keys': 'big'}
+        n = r.choice([ms, ms - 1, ms + 7, 520])
+        ops = [['update', 'pairs', [['b%d' % i, i] for i in range(n)], []]]
+        for _ in range(r.randint(3, 30)):
+            k = 'b%d' % r.randrange(n)
+            ops.append(r.choice([['set', k, -1], ['getitem', k], ['get', k, None], ['setdefault', k, 5]]))
+        ops.append(['copy'])
+        for _ in range(r.randint(0, 5)):
+            ops.append(r.choice([['set', 'b%d' % r.randrange(n), -2], ['set', 'new%d' % r.randrange(9), 1], ['copy']]))
+        return {'cfg': cfg, 'ops': ops}
+
+
 def run(ctx):
     n = {'quick': 6000, 'thorough': 80000}[ctx.tier]
+    explore(ctx, BigCheck(), {'quick': 2, 'thorough': 40}[ctx.tier], 'big-cache')
     explore(ctx, Check(), n, 'cache')
 
 
